@@ -171,13 +171,57 @@ theorem getLast?_max {l : List Name} (hs : l.Pairwise fun a b => charsLe a b = t
   · exact hs.2.2 y hy x (by simp)
   · simp only [List.mem_singleton] at hy; subst hy; exact charsLe_refl _
 
+theorem insertName_perm (a : Name) : ∀ l : List Name, (insertName a l).Perm (a :: l)
+  | [] => List.Perm.refl _
+  | b :: rest => by
+    unfold insertName
+    split
+    · exact List.Perm.refl _
+    · exact ((insertName_perm a rest).cons b).trans (List.Perm.swap a b rest)
+
+theorem sortNames_perm : ∀ l : List Name, (sortNames l).Perm l
+  | [] => List.Perm.refl _
+  | a :: rest => (insertName_perm a (sortNames rest)).trans ((sortNames_perm rest).cons a)
+
+theorem insertName_sorted (a : Name) : ∀ {l : List Name}, l.Pairwise (fun x y => charsLe x y = true) →
+    (insertName a l).Pairwise (fun x y => charsLe x y = true)
+  | [], _ => by simp [insertName]
+  | b :: rest, h => by
+    unfold insertName
+    rw [List.pairwise_cons] at h
+    split
+    · rename_i hab
+      rw [List.pairwise_cons]
+      refine ⟨?_, List.pairwise_cons.mpr h⟩
+      intro y hy
+      rcases List.mem_cons.mp hy with rfl | hy
+      · exact hab
+      · exact charsLe_trans hab (h.1 y hy)
+    · rename_i hab
+      have hba : charsLe b a = true := by
+        have := charsLe_total a b
+        simp only [Bool.or_eq_true] at this
+        rcases this with h1 | h1
+        · exact absurd h1 hab
+        · exact h1
+      rw [List.pairwise_cons]
+      refine ⟨?_, insertName_sorted a h.2⟩
+      intro y hy
+      rcases List.mem_cons.mp ((insertName_perm a rest).mem_iff.mp hy) with rfl | hy
+      · exact hba
+      · exact h.1 y hy
+
+theorem sortNames_sorted : ∀ l : List Name, (sortNames l).Pairwise (fun x y => charsLe x y = true)
+  | [] => List.Pairwise.nil
+  | a :: rest => insertName_sorted a (sortNames_sorted rest)
+
 theorem lastSorted_spec {revs : List Name} :
     (revs = [] ∧ lastSorted revs = none) ∨
     (∃ x, lastSorted revs = some x ∧ x ∈ revs ∧ ∀ y ∈ revs, charsLe y x = true) := by
   unfold lastSorted
-  have hperm := List.mergeSort_perm revs charsLe
-  have hsorted := List.pairwise_mergeSort (le := charsLe) (fun a b c => charsLe_trans) charsLe_total revs
-  cases hl : (revs.mergeSort charsLe).getLast? with
+  have hperm := sortNames_perm revs
+  have hsorted := sortNames_sorted revs
+  cases hl : (sortNames revs).getLast? with
   | none =>
     left
     rw [List.getLast?_eq_none_iff] at hl
@@ -444,6 +488,11 @@ def IsModuleName (m : Name) : Prop := m.contains '/' = false ∧ hasSuffix m dot
 def RootOk : FsNode → Prop
   | .file => True
   | .dir es => (es.map (·.1)).Nodup
+
+instance (m : Name) : Decidable (IsModuleName m) := by unfold IsModuleName; infer_instance
+instance : (root : FsNode) → Decidable (RootOk root)
+  | .file => isTrue trivial
+  | .dir es => inferInstanceAs (Decidable (es.map (·.1)).Nodup)
 
 theorem insertEntry_perm (e : Name × FsNode) : ∀ l : Listing, (insertEntry e l).Perm (e :: l)
   | [] => List.Perm.refl _
